@@ -75,7 +75,11 @@ class EnvModel:
         self.cmd_log.append((proc.kind, tuple(proc.jobs)))
         if proc.kind == 'jobs-submit':
             for jk in proc.jobs:
-                if jk in self.jobs:
+                if jk in self.jobs and \
+                        self.jobs[jk].state == 'never-launched':
+                    # the earlier submit command died before launching
+                    self.jobs[jk] = Job(jk)
+                elif jk in self.jobs:
                     # launched twice under the same submit number
                     self.jobs[jk].launches += 1
                     self.double_launch.append(jk)
@@ -335,7 +339,7 @@ class World:
             job = self.env.jobs.get(jk)
             path = f'{jk[0]}/{jk[1]}/{jk[2]:02d}'
             attrs: Dict[str, Any] = {'job_runner_name': 'background'}
-            if job is None or job.state == 'launching':
+            if job is None or job.state in ('launching', 'never-launched'):
                 # never (yet) launched: nothing known
                 attrs['job_runner_exit_polled'] = 1
             else:
